@@ -53,6 +53,35 @@ def targs(*want):
     return lambda d: astload.template_args(d)[:len(want)] == list(want)
 
 
+# std::vector<future_t> (section_t's base class, or a local vector of futures) and its iterators, std::shared_future<void>: section.h
+FUTVEC = r'std::vector<(nano::parallel::)?future_t>|std::vector<std::shared_future<void>\s*>'
+FIT = r'__normal_iterator<(const )?std::shared_future<void> \*|^std::vector<(std::shared_future<void>|(nano::parallel::)?future_t)>::(const_)?iterator$'
+FUT_CALLS = [(r'^operator!=\|bool \(const __normal_iterator<(const )?std::shared_future', '({0}.i != {1}.i)'),
+             (r'^operator==\|bool \(const __normal_iterator<(const )?std::shared_future', '({0}.i == {1}.i)'),
+             (r'^operator\+\+\|.*__normal_iterator<(const )?std::shared_future', '(++{0}.i)'),
+             (r'^operator\*\|.*__normal_iterator<(const )?std::shared_future', '(*nv_future_at({0}.v, {0}.i))'),
+             (r'^ctor\|(%s)\|void \((std::)?vector<.*> &&\)' % FUTVEC, 'nv_futvec_move({&0})'),
+             (r'^operator=\|.*vector<.*> &&\)\|(%s|nano::parallel::section_t)' % FUTVEC, 'nv_futvec_move_assign({&0}, {&1})'),
+             (r'^swap\|.*\|(%s|nano::parallel::section_t)' % FUTVEC, 'nv_futvec_swap({&0}, {&1})'), (r'^move\|', '{0}')]
+FUT_MEMBERS = [(r'^c?begin\|std::vector<std::shared_future', 'nv_fit_begin({self})'),
+               (r'^c?end\|std::vector<std::shared_future', 'nv_fit_end({self})'),
+               (r'^swap\|std::vector<std::shared_future', 'nv_futvec_swap({self}, {&0})'),
+               (r'^clear\|std::vector<std::shared_future', 'nv_futvec_clear'), (r'^empty\|std::vector<std::shared_future', 'nv_futvec_empty'),
+               (r'^size\|std::vector<std::shared_future', '{self}->size'),
+               (r'^valid\|std::__basic_future<void>', 'nv_future_valid'), (r'^get\|std::shared_future<void>', 'nv_future_get!'),
+               (r'^wait\|std::__basic_future<void>', 'nv_future_wait'),
+               (r'^wait_(for|until)\|std::__basic_future<void>', 'nv_future_wait_for({self})')]
+
+
+def section_fns():
+    """section_t::block(raise) and ~section_t() (contracts: section.h); ~section_t calls block through its contract"""
+    scommon = dict(self_struct='struct nv_section', types=[(FIT, 'struct nv_fit'), (r'^(%s)$' % FUTVEC, 'struct nv_section')] + TYPES, uf_float=False)
+    block = Fn('section_block', SRC, 'block', flt='section_t::block', calls=FUT_CALLS, members=FUT_MEMBERS, **scommon)
+    sdtor = Fn('section_dtor', SRC, '~section_t', flt='section_t::~section_t', kinds=('CXXDestructorDecl',),
+               members=[(r'^block\|nano::parallel::section_t', 'nv_call_block({self}, {0})!')], **scommon)
+    return block, sdtor
+
+
 def pool_size():
     return Fn('pool_size', TU, 'size', flt='nano::parallel::pool_t::size', self_struct='struct nv_pool', types=TYPES,
               members=[(r'^size\|std::vector<std::thread', '{self}->size')], uf_float=False)
@@ -120,14 +149,7 @@ def other_targets():
                        (r'^end\|std::vector<std::thread', '{self}->size'), (r'^join\|std::thread', 'nv_thread_join({self}, self)')], **pcommon)
 
     B = 'specs/C17/block.h'
-    scommon = dict(self_struct='struct nv_section', types=[(ITER, 'uint64_t')] + TYPES, uf_float=False)
-    block = Fn('section_block', SRC, 'block', flt='section_t::block',
-               calls=ITER_OPS + [(r'^operator\*\|.*__normal_iterator<std::shared_future', '(*nv_future_at({0}))')],
-               members=[(r'^begin\|std::vector<std::shared_future', '((uint64_t)0)'), (r'^end\|std::vector<std::shared_future', '{self}->size'),
-                        (r'^valid\|std::__basic_future<void>', 'nv_future_valid'), (r'^get\|std::shared_future<void>', 'nv_future_get!'),
-                        (r'^wait\|std::__basic_future<void>', 'nv_future_wait')], **scommon)
-    sdtor = Fn('section_dtor', SRC, '~section_t', flt='section_t::~section_t', kinds=('CXXDestructorDecl',),
-               members=[(r'^block\|nano::parallel::section_t', 'nv_block_stub')], **scommon)
+    block, sdtor = section_fns()
 
     Q = 'specs/C17/queue.h'
     qtypes = TYPES + [(r'^std::future<void>$|^future<void>$', 'struct nv_future'), (r'\(lambda at .*parallel\.h', 'struct nv_fn'), (r'^nvdrv::fn_t$', 'struct nv_fn')]
@@ -140,7 +162,7 @@ def other_targets():
     enq = Fn('enqueue', TU, 'enqueue', flt='nano::parallel::queue_t::enqueue', select=lambda d: astload.template_args(d) == ['const nvdrv::fn_t &'], **qcommon)
     return [Target('worker_run', [run, pred()], W), Target('worker_wait_pred', [pred()], W), Target('worker_ctor', [wctor], W),
             Target('pool_ctor', [ctor, maxs(), qctor()], C), Target('queue_ctor', [qctor()], C), Target('pool_max_size', [maxs()], C), Target('pool_dtor', [dtor], C),
-            Target('section_block', [block], B), Target('section_dtor', [sdtor], B),
+            Target('section_block', [block], B), Target('section_dtor', [sdtor, section_fns()[0]], B, replace=['section_block']),
             Target('enqueue_no_lock', [enl], Q), Target('enqueue', [enq], Q)]
 
 
